@@ -41,10 +41,11 @@ thread_local! {
 }
 
 /// A thread whose live allocation passes this figure is a runaway (no case of any area needs more
-/// than a 4 GiB dictionary plus tables): it is frozen inside the allocator, so that an endless
+/// than the largest legal encoder: a BT4 encoder for a 768 MiB dictionary allocates about 9 GiB of
+/// tables; decoders at most a 4 GiB dictionary): it is frozen inside the allocator, so that an endless
 /// allocation loop in the implementation cannot exhaust the machine, and the watchdog of
 /// util::run_cases reports the case as a failure.
-pub const RUNAWAY_CAP: isize = 8 << 30;
+pub const RUNAWAY_CAP: isize = 24 << 30;
 static FROZEN: [std::sync::atomic::AtomicUsize; 64] = [const { std::sync::atomic::AtomicUsize::new(0) }; 64];
 
 pub fn is_frozen(tid: usize) -> bool {
